@@ -227,7 +227,7 @@ PROPS = {
                        "structurally, implementation = spec truth tables).",
     },
     "C02": {
-        "modules": ["RsddModel.Props.C02", "RsddModel.Props.C02Table", "RsddModel.Props.C02Store", "RsddModel.Props.Tie"],
+        "modules": ["RsddModel.Props.C02", "RsddModel.Props.C02Table", "RsddModel.Props.C02Store", "RsddModel.Props.Tie", "RsddModel.Props.TieIte"],
         "streams": [BDD_STREAM, TBL_STREAM],
         "rule": BDD_RULE,
         "trusted": ["modelled not verified: bump allocator, FxHasher, psl as u8 (PslBound hypothesis: no probe sequence reaches 256)"],
@@ -246,7 +246,7 @@ PROPS = {
                        "robin-hood table across any number of growths; growOrig_orphans is the negative theorem for the pinned grow.",
     },
     "C16": {
-        "modules": ["RsddModel.Props.C16", "RsddModel.Props.Tie"],
+        "modules": ["RsddModel.Props.C16", "RsddModel.Props.Tie", "RsddModel.Props.TieIte"],
         "streams": [BDD_STREAM, LRU_STREAM],
         "rule": BDD_RULE,
         "trusted": ["modelled not verified: FxHasher (any function of the key)"],
@@ -261,7 +261,7 @@ PROPS = {
                        "parameters, hence builder results are cache-independent.",
     },
     "C13": {
-        "modules": ["RsddModel.Props.C13", "RsddModel.Props.Tie", "RsddModel.Props.TieFF"],
+        "modules": ["RsddModel.Props.C13", "RsddModel.Props.Tie", "RsddModel.Props.TieFF", "RsddModel.Props.TieSem"],
         "streams": [RING_STREAM],
         "rule": "triples (a,b,c) per weight type: finite fields for all 7 exported primes with boundary residues {0,1,2,P/2,P/2+1,P-2,P-1}, "
                 "small and random residues; reals/EU/complex on dyadic k/8 (exact in f64); Booleans exhaustively; truncated polynomials over "
@@ -273,11 +273,11 @@ PROPS = {
                       "finite field on the carrier {v < P}, truncated polynomials on well-formed values), finite-field ops = integer arithmetic mod P with "
                       "no u128 overflow for every exported prime (list regenerated from the source and re-decided by the kernel), subtraction inverts "
                       "addition, lattice laws and order compatibility of join/meet/choose; negative theorems for the pinned sub/mul.",
-        "level_note": "Trusted: Lean kernel; allowed axioms; harness+driver. FiniteField::{new,negate,add,sub} are regenerated from the source text and proved equal to the model's (TieFF.*); mul (a loop) is tied by the ring stream only. f64 modelled by Rat (exact on the dyadic domain the property names).",
+        "level_note": "Trusted: Lean kernel; allowed axioms; harness+driver. FiniteField::{new,negate,add,sub} and the one-line operations of Complex, ExpectedUtility and RealSemiring (add, mul, sub, one, zero, join, meet, choose, partial_cmp) are regenerated from the source text and proved equal to the model's (TieFF.*, TieSem.*); FiniteField::mul and the polynomial product (loops) are tied by the ring stream only. f64 modelled by Rat (exact on the dyadic domain the property names).",
         "explanation": "C13.* + Tie.* theorems; ring stream: implementation vs exact arithmetic, vs the mirrored model, and the laws on the implementation's own outputs.",
     },
     "C07": {
-        "modules": ["RsddModel.Props.C07Bdd", "RsddModel.Props.C07Sdd"],
+        "modules": ["RsddModel.Props.C07Bdd", "RsddModel.Props.C07Sdd", "RsddModel.Props.TieSem", "RsddModel.Props.TieFF"],
         "streams": [WMC_STREAM, HASH_STREAM],
         "rule": "diagrams taken from builder pools (three largest distinct + one random per program), random orders; normalised field weights for a "
                 "random exported prime, arbitrary integer weights 0..5, dyadic real weights; non-trivial = diagram has a node below a node",
@@ -402,7 +402,7 @@ PROPS = {
         "explanation": "C10.* and C10Sdd.* theorems; query stream: answers vs fresh copy, scratch emptiness, tree-level values, and the DAG+scratch model.",
     },
     "C12": {
-        "modules": ["RsddModel.Props.C12"],
+        "modules": ["RsddModel.Props.C12", "RsddModel.Props.TieSem"],
         "streams": [OPT_STREAM],
         "rule": "the two largest distinct diagrams of a builder pool under a random order; marginal MAP / real branch-and-bound: every subset size 0..4 of "
                 "query variables in random order, weights in eighths, non-query normalised, query weights arbitrary in [0,1]; MEU / EU branch-and-bound: "
